@@ -41,6 +41,30 @@ pub fn file_ev(log: &mut Log, bytes: &[u8], items: &[Kv], ty: u64, nodes: i64, o
 pub fn c09(log: &mut Log, seed: u64, tier: &str) {
     let mut r = rng(seed, 9);
     let ins = inputs(&mut r, tier, true);
+    // every subset of a two-level universe under cache geometries that evict all the time: a
+    // recycled cache cell must never stand for a node it does not equal
+    {
+        let mut uni: Vec<Vec<u8>> = vec![];
+        for &st in b"1234" {
+            for &en in b"dj" {
+                uni.push(vec![st, en]);
+            }
+        }
+        uni.sort();
+        let geos: &[Option<(usize, usize)>] = &[Some((1, 1)), Some((1, 2)), Some((2, 2)), Some((1, 3))];
+        let stride = 1;
+        let mut count = 0usize;
+        for mask in (0u32..(1u32 << uni.len())).step_by(stride) {
+            let keys: Vec<Vec<u8>> = (0..uni.len()).filter(|i| mask & (1 << i) != 0).map(|i| uni[i].clone()).collect();
+            for (_gi, geo) in geos.iter().enumerate() {
+                count += 1;
+                let as_set = count % 3 == 0;
+                let items: Vec<Kv> = keys.iter().enumerate().map(|(i, k)| (k.clone(), if as_set { 0 } else { [10u64, 20, 20, 30, 40, 2650, 22, 0][(i + mask as usize) % 8] })).collect();
+                let (bytes, nodes) = build_raw(&items, 0, as_set, *geo);
+                file_ev(log, &bytes, &items, 0, nodes as i64, &format!("two-level {:08b} {:?}", mask, geo));
+            }
+        }
+    }
     // "any builder": sets whose keys are offered more than once (a repeat is a no-op that must
     // leave no trace, not even in the key count) ...
     for (i, (name, keys)) in ins.iter().filter(|(_, k)| k.len() <= 200).take(if thorough(tier) { 60 } else { 20 }).enumerate() {
@@ -200,7 +224,7 @@ pub fn raw_ev_from(log: &mut Log, bytes: &[u8], origin: &str, via: &str, base: O
                 match $fst {
                     Ok(f) => {
                         let v = f.verify();
-                        (jok(), json!({"size": jn(f.size()), "ty": ju(f.fst_type()), "len": ju(f.len() as u64), "verify": jres(&v), "as_bytes": f.as_bytes().len()}))
+                        (jok(), json!({"size": jn(f.size()), "ty": ju(f.fst_type()), "len": ju(f.len() as u64), "empty": f.is_empty(), "verify": jres(&v), "as_bytes": f.as_bytes().len()}))
                     }
                     Err(e) => (jopen::<()>(&Err(e)), json!({})),
                 }
@@ -226,7 +250,7 @@ pub fn raw_ev_from(log: &mut Log, bytes: &[u8], origin: &str, via: &str, base: O
                         Ok(m) => {
                             let f = m.as_fst();
                             let v = f.verify();
-                            (jok(), json!({"size": jn(f.size()), "ty": ju(f.fst_type()), "len": ju(m.len() as u64), "verify": jres(&v), "as_bytes": f.as_bytes().len()}))
+                            (jok(), json!({"size": jn(f.size()), "ty": ju(f.fst_type()), "len": ju(m.len() as u64), "empty": m.is_empty(), "verify": jres(&v), "as_bytes": f.as_bytes().len()}))
                         }
                         Err(e) => (jopen::<()>(&Err(e)), json!({})),
                     },
@@ -234,7 +258,7 @@ pub fn raw_ev_from(log: &mut Log, bytes: &[u8], origin: &str, via: &str, base: O
                         Ok(m) => {
                             let f = m.as_fst();
                             let v = f.verify();
-                            (jok(), json!({"size": jn(f.size()), "ty": ju(f.fst_type()), "len": ju(m.len() as u64), "verify": jres(&v), "as_bytes": f.as_bytes().len()}))
+                            (jok(), json!({"size": jn(f.size()), "ty": ju(f.fst_type()), "len": ju(m.len() as u64), "empty": m.is_empty(), "verify": jres(&v), "as_bytes": f.as_bytes().len()}))
                         }
                         Err(e) => (jopen::<()>(&Err(e)), json!({})),
                     },
@@ -244,7 +268,7 @@ pub fn raw_ev_from(log: &mut Log, bytes: &[u8], origin: &str, via: &str, base: O
                 Ok(m) => {
                     let f = m.as_fst();
                     let v = f.verify();
-                    (jok(), json!({"size": jn(f.size()), "ty": ju(f.fst_type()), "len": ju(m.len() as u64), "verify": jres(&v), "as_bytes": f.as_bytes().len()}))
+                    (jok(), json!({"size": jn(f.size()), "ty": ju(f.fst_type()), "len": ju(m.len() as u64), "empty": m.is_empty(), "verify": jres(&v), "as_bytes": f.as_bytes().len()}))
                 }
                 Err(e) => (jopen::<()>(&Err(e)), json!({})),
             },
@@ -252,7 +276,7 @@ pub fn raw_ev_from(log: &mut Log, bytes: &[u8], origin: &str, via: &str, base: O
                 Ok(m) => {
                     let f = m.as_fst();
                     let v = f.verify();
-                    (jok(), json!({"size": jn(f.size()), "ty": ju(f.fst_type()), "len": ju(m.len() as u64), "verify": jres(&v), "as_bytes": f.as_bytes().len()}))
+                    (jok(), json!({"size": jn(f.size()), "ty": ju(f.fst_type()), "len": ju(m.len() as u64), "empty": m.is_empty(), "verify": jres(&v), "as_bytes": f.as_bytes().len()}))
                 }
                 Err(e) => (jopen::<()>(&Err(e)), json!({})),
             },
@@ -487,9 +511,12 @@ pub fn sum_ev(log: &mut Log, data_tail: &[u8]) {
     while file.len() < 32 {
         file.push(0);
     }
-    // make the root plausible: Fst::new only rejects root == 0 with a wrong total length
+    // Fst::new only rejects root == 0 with a wrong total length: keep the data's own last eight
+    // bytes as the root address (so that every byte of the data is arbitrary) unless they are zero
     let end = file.len();
-    file[end - 8..end].copy_from_slice(&le8(5));
+    if file[end - 8..end].iter().all(|&b| b == 0) {
+        file[end - 8..end].copy_from_slice(&le8(5));
+    }
     let data = file.clone();
     file.extend_from_slice(&[0x5A, 0x5A, 0x5A, 0x5A]);
     let r = guard(|| Fst::new(&file[..]).map(|f| f.verify()));
@@ -560,6 +587,25 @@ pub fn c08(log: &mut Log, seed: u64, tier: &str) {
     // (3) corruption is never certified: every position of small FSTs x replacement values, bursts
     let nf = if thorough(tier) { 16 } else { 5 };
     let mut nraw = 0usize;
+    // ... first over files of 17 consecutive sizes (every residue of the checksum's block size)
+    for extra in 0..17usize {
+        let mut b = Builder::memory();
+        let mut key = vec![b'a'; 1 + extra];
+        key[0] = b'k';
+        b.insert(&key, 0x0102_0304).unwrap();
+        let bytes = b.into_inner().unwrap();
+        for pos in 0..bytes.len() {
+            for v in [bytes[pos] ^ 1, bytes[pos] ^ 0x80, !bytes[pos], bytes[pos].wrapping_add(0x55)].iter() {
+                if *v == bytes[pos] {
+                    continue;
+                }
+                let mut m = bytes.clone();
+                m[pos] = *v;
+                nraw += 1;
+                raw_ev_from(log, &m, "corrupt1-sizes", VIAS[nraw % VIAS.len()], Some(&bytes));
+            }
+        }
+    }
     for (bytes, _items) in valid_small_fsts(&mut r, nf) {
         if bytes.len() > 160 {
             continue;
